@@ -12,6 +12,7 @@ import BufrModel.Msg.Sections
 import BufrModel.Gen.Layouts
 import BufrModel.Spec.Frame
 import BufrModel.Lemmas.Sections
+import BufrModel.Lemmas.SectionsDec
 namespace Bufr
 
 /-- The section layouts shipped in /repo/pybufrkit/definitions (regenerated on every run) form a
@@ -216,6 +217,109 @@ theorem C04_honour_refuses_total (cfg : EncCfg) (hc : cfg.ignoreDeclared = false
   have c2 : (v != Int.ofNat (w.length / 8)) = true := bne_iff_ne.mpr hne
   simp only [c1, c2, Bool.false_eq_true, if_false, if_true]
 
+/-! ## Decoder -/
+
+/-- **The decoder consumes exactly the declared extents.**  For any layout family, any options
+    (metadata-only, ignore expectations) and any prefix-determined data reader: a successful decoding
+    of the sections of a message consumed a prefix `p` of the stream whose length is the sum of the
+    sections' extents; a section that has a section length consumed exactly `8 * declared` bits
+    (surplus octets skipped); and the result is the same whatever follows `p`. -/
+theorem C04_decode_consumes_declared {α : Type} (L : Layouts) (dc : DataCoder α)
+    (hdc : ∀ reg, Local (dc.dec reg)) (o : DecOpts) (x : Bits) (out : DecOut α) (r : Bits)
+    (h : decodeBits L dc o x = .ok (out, r)) :
+    ∃ p, x = p ++ r ∧ p.length = out.nbits ∧ out.nbits = (out.sections.map (·.nbits)).sum ∧
+      (∀ sec ∈ out.sections, ∀ v, sec.params.lookup "section_length" = some (PVal.int v) →
+        sec.nbits = 8 * v.toNat) ∧
+      ∀ t, decodeBits L dc o (p ++ t) = .ok (out, t) := by
+  obtain ⟨p, news, h1, h2, h3, h4, h5, h6⟩ := decLoop_local L dc hdc o _ _ _ _ _ _ _ h
+  simp only [List.nil_append, Nat.zero_add] at h2 h3
+  refine ⟨p, h1, h3.symm, ?_, ?_, h6⟩
+  · rw [h3, h4, h2]
+  · rw [h2]; exact h5
+
+/-- **serialized_bytes is exactly the message, regardless of what follows.**  If `b` starts with the
+    start signature and decoding `b ++ t` consumed `8 * |b|` bits, then the reported bytes are `b` and
+    decoding `b ++ t'` gives the same message for every `t'`. -/
+theorem C04_decode_regardless_of_trailing {α : Type} (L : Layouts) (dc : DataCoder α)
+    (hdc : ∀ reg, Local (dc.dec reg)) (o : DecOpts) (b t : List UInt8) (m : DecMsg α)
+    (hb : startSig.isPrefixOf b = true) (h : decode L dc o (b ++ t) = .ok m) (hn : m.nbits = 8 * b.length) :
+    m.serialized = b ∧ ∀ t', decode L dc o (b ++ t') = .ok m := by
+  have hfind : ∀ u, findFrom startSig (b ++ u) = some (b ++ u) := by
+    intro u
+    cases b with
+    | nil => simp [startSig] at hb
+    | cons c cs =>
+      have : startSig.isPrefixOf (c :: cs ++ u) = true := by
+        rw [List.isPrefixOf_iff_prefix] at hb ⊢
+        exact List.IsPrefix.trans hb (List.prefix_append _ _)
+      simp only [List.cons_append] at this ⊢
+      simp only [findFrom, this, if_true]
+  have hbb : ∀ u, bytesToBits (b ++ u) = bytesToBits b ++ bytesToBits u := by
+    intro u; simp [bytesToBits, List.flatMap_append]
+  unfold decode at h
+  rw [hfind t] at h
+  simp only at h
+  split at h
+  · cases h
+  rename_i out r hd
+  cases h
+  simp only at hn
+  obtain ⟨p, hx, hpl, _, _, hall⟩ := C04_decode_consumes_declared L dc hdc o _ out r hd
+  rw [hbb t] at hx
+  have hlen : (bytesToBits b).length = p.length := by rw [bytesToBits_length, hpl, hn]
+  obtain ⟨hp, hr⟩ := List.append_inj hx hlen
+  refine ⟨?_, fun t' => ?_⟩
+  · show (b ++ t).take (out.nbits / 8) = b
+    rw [hn, Nat.mul_div_cancel_left _ (by omega : 0 < 8), List.take_left]
+  · simp only [decode, hfind t', hbb t']
+    rw [hp, hall (bytesToBits t')]
+    simp only [hn, Nat.mul_div_cancel_left _ (by omega : 0 < 8), List.take_left]
+
+/-- **An overrun is the library error.**  When the parameters of a section with a section length have
+    consumed more bits than the declared length allows, decoding the section fails with the library
+    error (`PyBufrKitError`), whatever the data reader. -/
+theorem C04_overrun_is_error {α : Type} (dc : DataCoder α) (s : SectionLayout)
+    (hh : s.hasParam "section_length" = true) (reg : Registry) (start : Nat) (x r : Bits) (st : DecSt α) (d : Nat)
+    (hps : decParams dc start s.params 0 { reg := reg, acc := [], used := 0, data := none } x = .ok (st, r))
+    (hd : secLen st.acc = .ok d) (hlt : d * 8 < st.used) :
+    decSection dc s reg start x = .error .lib := by
+  have h1 : ¬ (st.used < d * 8) := by omega
+  simp only [decSection, R.bind, hps, finishSection, hh, if_true, hd, R.lift, R.pure, h1, hlt, if_false, R.fail]
+
+/- FULL STATEMENT (not proved in this round):
+
+   theorem C04_decode_encode (L hL cfg vals payload r) (dc : DataCoder α)
+       (hdec : ∀ reg x, ∃ a, dc.dec reg (payload ++ x) = .ok (a, x))          -- the reader accepts the payload
+       (hvalid : supplied signatures are the expected ones, `bin` values have their declared width)
+       (h : encode L cfg vals payload = .ok r) :
+       ∀ t, ∃ m, decode L dc {} (r.bytes ++ t) = .ok m ∧ m.serialized = r.bytes
+
+   What is proved: the encoder side (every section's declared length is its extent, C04_encoded_frame), the decoder
+   side (every section consumes its declared extent, independent of what follows, C04_decode_consumes_declared) and
+   the theorem below, which needs the decoder to have succeeded on the produced bytes and to have consumed all of
+   them.  Missing: the simulation lemma that the decoder's parameter reads succeed on what the encoder's parameter
+   writes produced (value round trip of the control parameters edition / is_section2_presents / section_length and
+   width agreement of the others).  It is carried by the correspondence check: every generated message is decoded
+   with trailing bytes on both sides and `serialized_bytes` compared with the encoder's output. -/
+
+/-- decode after encode, partial: see the comment block above for what is missing. -/
+theorem C04_decode_encode_partial {α : Type} (L : Layouts) (hL : L.WF = true) (cfg : EncCfg)
+    (vals : List (List PVal)) (payload : Bits) (r : Encoded) (dc : DataCoder α) (hdc : ∀ reg, Local (dc.dec reg))
+    (o : DecOpts) (hsig : (vals.head?.bind List.head?) = some (PVal.bytes startSig))
+    (h : encode L cfg vals payload = .ok r) (t : List UInt8) (m : DecMsg α)
+    (hd : decode L dc o (r.bytes ++ t) = .ok m) (hn : m.nbits = 8 * r.bytes.length) :
+    m.serialized = r.bytes ∧ ∀ t', decode L dc o (r.bytes ++ t') = .ok m := by
+  obtain ⟨_, _, b0, _, mid, _, _, hb0, _, hbytes, _⟩ := C04_encoded_frame L hL cfg vals payload r h
+  rw [hsig] at hb0
+  injection hb0 with hb0
+  injection hb0 with hb0
+  subst hb0
+  have hpre : startSig.isPrefixOf r.bytes = true := by
+    have hps : padBytes startSig 4 = startSig := by decide
+    rw [hbytes, hps, List.isPrefixOf_iff_prefix, List.append_assoc]
+    exact List.prefix_append _ _
+  exact C04_decode_regardless_of_trailing L dc hdc o r.bytes t m hpre hd hn
+
 /-- non-vacuity: the bundled family meets the hypothesis, and a concrete edition-3 message with a
     5-bit payload encodes (so the conclusions above speak about something) -/
 example : (encode Gen.layouts {} [[.bytes startSig, .int 0, .int 3],
@@ -224,5 +328,8 @@ example : (encode Gen.layouts {} [[.bytes startSig, .int 0, .int 3],
     [.int 0, .bin (zeros 8), .int 1, .bool true, .bool false, .bin (zeros 6), .descs [31031, 31031, 31031, 31031, 31031]],
     [.int 0, .bin (zeros 8), .data], [.bytes stopSig]] [true, false, true, true, false]).map (·.bytes.length) = .ok 54 := by
   decide +kernel
+
+/-- non-vacuity (decoder): the raw data coder is prefix-determined, and the message above decodes -/
+example (n : Nat) : ∀ reg, Local ((rawCoder n).dec reg) := fun _ => local_readBits n
 
 end Bufr
